@@ -157,6 +157,8 @@ def genDateTime (r : Rng) : Nat × Rng :=
 
 def genB (l : BLeaf) (r : Rng) : Nat × Rng :=
   match l with
+  | .u8 => r.below 256
+  | .u16 => let (c, r) := r.below 3; if c == 0 then (65535, r) else r.below 65536
   | .u32 => let (c, r) := r.below 4; if c == 0 then (r.below 4294967296) else if c == 1 then (r.below 256) else if c == 2 then (4294967295, r) else (r.below 65536)
   | .pg =>
       let (x, r) := r.below (256 ^ 8)
@@ -212,6 +214,39 @@ def genUpdateMask (ctx : GenCtx) (r : Rng) : Val × Rng :=
   let vs := vs.zipIdx.map fun (v, i) => if i == idx then Val.nat ty else v
   (.tuple [.list (masks.map Val.nat), .list vs], r)
 
+/-- mask slots: empty, full, a single slot (first / last / random) or a random selection -/
+def genSlots (elem : Rng → Val × Rng) (n : Nat) (r : Rng) : Val × Rng :=
+  let (mode, r) := r.below 6
+  let (pick, r) := r.below n
+  let rec go : Nat → Nat → Rng → List Val × Rng
+    | 0, _, r => ([], r)
+    | k + 1, i, r =>
+      let (c, r) := r.below 3
+      let present := match mode with
+        | 0 => false
+        | 1 => true
+        | 2 => i == pick
+        | 3 => i == 0 || i + 1 == n
+        | _ => c == 0
+      let (e, r) := if present then (let (v, r) := elem r; (Val.list [v], r)) else (Val.list [], r)
+      let (vs, r) := go k (i + 1) r
+      (e :: vs, r)
+  let (vs, r) := go n 0 r
+  (.list vs, r)
+
+def genGear (r : Rng) : Val × Rng :=
+  let (item, r) := genB .u32 r
+  let (em, r) := genSlots (fun r => let (fs, r) := genBs [.u16] r; (.tuple fs, r)) 16 r
+  let (fs, r) := genBs gearTail r
+  (.tuple (.nat item :: em :: fs), r)
+
+def genName (r : Rng) : Bytes × Rng :=
+  let (n, r) := r.below 12
+  let rec go : Nat → Rng → Bytes × Rng
+    | 0, r => ([], r)
+    | k + 1, r => let (c, r) := r.below 26; let (bs, r) := go k r; (UInt8.ofNat (97 + c) :: bs, r)
+  go n r
+
 def genPrim (ctx : GenCtx) (name : String) (r : Rng) : Option (Val × Rng) :=
   match primKind name with
   | .achDone => let (k, r) := r.below (ctx.maxLen + 1); let (vs, r) := genSent achDoneFields k r; some (.list vs, r)
@@ -230,6 +265,20 @@ def genPrim (ctx : GenCtx) (name : String) (r : Rng) : Option (Val × Rng) :=
           | v => v
         some (.list (.tuple p :: ps), r)
   | .updateMask => some (genUpdateMask ctx r)
+  | .mask w ls => some (genSlots (fun r => let (fs, r) := genBs ls r; (.tuple fs, r)) (8 * w) r)
+  | .gear => some (genSlots genGear 32 r)
+  | .namedGuid =>
+      let (c, r) := r.below 3
+      if c == 0 then some (.tuple [.nat 0], r) else
+      let (g, r) := r.below (256 ^ 8 - 1)
+      let (s, r) := genName r
+      some (.tuple [.nat (g + 1), .bytes s], r)
+  | .virp =>
+      let (c, r) := r.below 3
+      if c == 0 then some (.tuple [.nat 0], r) else
+      let (id, r) := r.below 4294967295
+      let (sf, r) := genB .u32 r
+      some (.tuple [.nat (id + 1), .nat sf], r)
   | .other => none
 
 def genLeaf (ctx : GenCtx) (id : Nat) (l : Leaf) (r : Rng) : Option (Val × Rng) :=
